@@ -875,6 +875,35 @@ def prog_methods(E):
     E.outcome("sync", lambda: (o.inst(1, scale=2), K.cls_m(2), K.stat(3)))
 
 
+def prog_unprintable_values(E):
+    """values whose repr() raises (ValueError, not only RecursionError) as task arguments, as task RESULTS and as the values of
+    DebugBatchItems that other tasks depend on: the profiling / dump code describes tasks AND their dependencies"""
+    a = E.asynq
+    from asynq.batching import DebugBatchItem
+
+    class Bad(object):
+        def __repr__(self):
+            raise ValueError("no repr")
+
+        __str__ = __repr__
+
+    @a.asynq()
+    def giver():
+        return Bad()
+
+    @a.asynq()
+    def taker(x):
+        # (one batch name: two debug batches of equal priority would be flushed in set order, which differs between runs)
+        got = yield [DebugBatchItem("unprintable", result=Bad()), DebugBatchItem("unprintable", result=2), giver.asynq()]
+        return type(got[0]).__name__, got[1], type(got[2]).__name__, type(x).__name__
+
+    @a.asynq()
+    def root():
+        return (yield [taker.asynq(Bad()), taker.asynq(1)])
+
+    E.outcome("root", root)
+
+
 def prog_awkward_arguments(E):
     """task arguments and batch objects whose str()/repr() is long, raises, or recurses (DUMP_* flags convert live objects)"""
     a = E.asynq
